@@ -109,6 +109,8 @@ def run_check(cid, tier, seed):
             continue
         for mode in c.modes:
             for case in (c.cases or [None]):
+                if case is not None and case.get('mode') not in (None, mode):
+                    continue
                 try:
                     rep = verify.verify_function(prog, reg, key, mode=mode, case=case)
                 except Exception:
